@@ -7,7 +7,8 @@ import props.c10 as c10
 LEAN_MODULE = 'QM.Props.C13'
 THEOREMS = ['Cv.C13_one_per_name', 'Cv.C13_first_wins', 'Cv.C13_merge_order', 'Cv.C13_dropin_dirs', 'Cv.C13_dropins_one_per_name',
             'Cv.C13_dropins_first_dir_wins', 'Cv.C13_dropins_complete', 'Cv.C13_dropins_name_order', 'Cv.C13_split_equiv', 'Cv.C13_split_histories',
-            'Parse.entriesOf_eraseSects', 'Parse.nodup_eraseSects']
+            'Parse.entriesOf_eraseSects', 'Parse.nodup_eraseSects', 'Cv.C13_split_exact', 'Cv.C13_split_same_services', 'Parse.eraseSects_eq_merge',
+            'MM.merge_extend', 'MM.modify_comm', 'Parse.addEntries_eq_modify']
 ASSUMPTIONS = [
     'the directory tree is abstract (Cv.Tree); walkdir/read_dir are third-party behaviour represented by the listing order of the tree; within one directory the order is unspecified, so generated trees hold at most one copy of a name per search root',
     'Cv.runTree (search dirs with sub-directories, first-seen-wins, drop-in collection and merge, then the conversion loop) is compared with real --dry-run runs of the binary on generated trees (services printed, counts of load / drop-in / conversion errors)',
@@ -23,7 +24,10 @@ LEVEL_TEXT = ('Proof (discovery fold) + whole-run correspondence + marker oracle
               '(C13_dropins_complete), in byte-wise name order whatever directory it came from (C13_dropins_name_order). One file or main file '
               'plus drop-in (C13_split_equiv, over the parser model and every rendering): a unit cut at a section boundary into a main file and a '
               'drop-in reads, section by section, as the same entries in the same order as the single file, so every lookup agrees '
-              '(C13_split_histories) — the premise of the file-level spelling oracle that runs the real loader. Partial with respect '
+              '(C13_split_histories); when every section of the drop-in carries an entry the two are the same unit, section order included '
+              '(C13_split_exact: the parser\'s accumulator equals merge_from of the parsed drop-in, by commutation of updates to different '
+              'sections), so every converter and the whole run give the same services (C13_split_same_services) — the premise of the '
+              'file-level spelling oracle that runs the real loader. Partial with respect '
               'to the runtime: directory walking is modelled by an abstract tree and tied by running the binary on generated trees; the same '
               'rule is checked independently with origin markers on real runs.')
 LEVEL_NOTE = 'Trusted: Lean kernel; whole-run correspondence; the Python statement of the drop-in rule. readdir order inside one directory is outside the model.'
